@@ -154,7 +154,7 @@ O0 == [ok |-> 0, val |-> -1, err |-> "", panic |-> 0, res |-> {}, ents |-> {}, c
 R(s, o) == [s |-> s, o |-> o]
 
 \* t: "put" | "del" | "fail".  real: the write completes an in-flight load of a requested key; such a write is
-\* dropped when the key was removed (evicted / expired) after the load started (C09).  Keys a bulk loader
+\* dropped when the key's live value was evicted after the load started (C09; the removal of an expired entry cancels nothing, F24).  Keys a bulk loader
 \* volunteered, and explicit writes, are never dropped.
 MW(k, t, v, cl, real) == [k |-> k, t |-> t, v |-> v, cl |-> cl, real |-> real]
 Dropped(w, evk) == w.real /\ w.t # "fail" /\ w.k \in evk
@@ -268,10 +268,16 @@ Finish(s, k, ld, v, cl) ==
       [] IsNF(ld)   -> [s |-> LoadOk(s), ph |-> {MW(k, "del", 0, cl, TRUE)}]
       [] OTHER      -> [s |-> LoadKo(s), ph |-> IF cl = "refresh" THEN {MW(k, "fail", 0, cl, TRUE)} ELSE {}]
 
+\* Time may pass inside a loader (user code): the scripted loader moves the clock by a.adv units in the first invocation of an operation.
+\* The lookups of the operation happen before, the installation (and the maintenance that follows it) after: deadlines are counted from
+\* the later instant, and entries that were expired but unswept at the lookup may be swept meanwhile - which is not a write (finding F24).
+Adv(s, a) == [s EXCEPT !.now = @ + a.adv]
+
 DoGet(s, a) ==
     LET k == a.k
-        g == GetNode(s, k)
-        stale == g.hit /\ HasRef(s.cfg) /\ ~Fresh(g.s, k)
+        g0 == GetNode(s, k)
+        g == [g0 EXCEPT !.s = IF g0.hit /\ ~(HasRef(s.cfg) /\ ~Fresh(g0.s, k)) THEN g0.s ELSE Adv(g0.s, a)]
+        stale == g.hit /\ HasRef(s.cfg) /\ ~Fresh(g0.s, k)
     IN IF g.hit /\ ~stale
        THEN R(g.s, [O0 EXCEPT !.ok = 1, !.val = s.ent[k].v])
        ELSE IF g.hit
@@ -292,7 +298,7 @@ DoGet(s, a) ==
 DoRefresh(s, a) ==
     LET k == a.k
     IN IF ~HasRef(s.cfg) THEN R(s, [O0 EXCEPT !.cmp = @ \cup {"ch"}])
-       ELSE LET f == Finish(s, k, a.ld, a.v, "refresh")
+       ELSE LET f == Finish(Adv(s, a), k, a.ld, a.v, "refresh")
                 rr == CASE a.ld = "val" -> [k |-> k, v |-> a.v, err |-> ""]
                         [] a.ld = "err" -> [k |-> k, v |-> 0, err |-> "err"]
                         [] OTHER        -> [k |-> k, v |-> 0, err |-> "nf"]
@@ -340,7 +346,8 @@ DoBulkGet(s, a) ==
         M  == SeqToSet(ks) \ H
         hitv == {<<k, s.ent[k].v>> : k \in H}
         T  == {k \in H : HasRef(s.cfg) /\ ~Fresh(lk.s, k)}       \* served stale, reloaded in one bulk reload
-        c1 == IF T = {} THEN NoCall(lk.s) ELSE BulkCall(lk.s, T, a, "refresh", 1)
+        sA == IF T # {} \/ M # {} THEN Adv(lk.s, a) ELSE lk.s
+        c1 == IF T = {} THEN NoCall(sA) ELSE BulkCall(sA, T, a, "refresh", 1)
         l1 == IF T = {} THEN {} ELSE {BulkLoadRec("BulkReload", T, lk.s)}
         p1 == T # {} /\ a.shape = "panic"
         i2 == IF T = {} THEN 1 ELSE 2
@@ -364,7 +371,8 @@ DoBulkRefresh(s, a) ==
     LET Q  == SeqToSet(a.ks) \cap Keys(s)
         TR == {k \in Q : Live(s, k)}          \* reloaded with their current value
         TL == Q \ TR                          \* loaded
-        c1 == IF TL = {} THEN NoCall(s) ELSE BulkCall(s, TL, a, "refresh", 1)
+        sA == IF Q # {} THEN Adv(s, a) ELSE s
+        c1 == IF TL = {} THEN NoCall(sA) ELSE BulkCall(sA, TL, a, "refresh", 1)
         l1 == IF TL = {} THEN {} ELSE {BulkLoadRec("BulkLoad", TL, s)}
         p1 == TL # {} /\ a.shape = "panic"
         i2 == IF TL = {} THEN 1 ELSE 2
